@@ -199,7 +199,7 @@ theorem split3 {α} (toks : List α) (a b : Nat) (hab : a ≤ b) (hb : b ≤ tok
   · simp; omega
   · simp; omega
 
-theorem removeIndices_nil {α} (i : Nat) (xs : List α) : removeIndices i [] xs = xs := by
+theorem removeIndices_nil_q {α} (i : Nat) (xs : List α) : removeIndices i [] xs = xs := by
   induction xs generalizing i with
   | nil => rfl
   | cons x xs ih => simp [removeIndices, ih]
@@ -213,7 +213,7 @@ theorem condLoop_tiles (edit : Kind → Kind) : ∀ (len : Nat) (ms : List Span)
     intro ms hl toks p q h _
     have : ms = [] := by cases ms <;> simp_all
     subst this
-    exact ⟨toks, [], rfl, by rw [removeIndices_nil]; exact h⟩
+    exact ⟨toks, [], rfl, by rw [removeIndices_nil_q]; exact h⟩
   | succ len ih =>
     intro ms hl toks p q h hg
     match ms, hl with
@@ -342,7 +342,7 @@ theorem condLoop_consume (edit : Kind → Kind) : ∀ (len : Nat) (ms : List Spa
     subst this
     refine ⟨toks, [], rfl, rfl, ?_⟩
     intro Z q2
-    rw [List.nil_append, removeIndices_nil]
+    rw [List.nil_append, removeIndices_nil_q]
     have := removeIndices_prefix_keep toks Z 0 (q2.map (· + toks.length)) (by
       intro j hj; simp only [List.mem_map] at hj; obtain ⟨x, _, rfl⟩ := hj; omega)
     rw [this, removeIndices_shift]
